@@ -17,7 +17,7 @@ FS = {
  'cpm3': dict(labels=['do:5.25in', 'imd:5.25in-kayii', 'imd:8in', 'td0:5.25in-kay4', 'imd:3in-amstrad'], holes=True, dirs=False, maxname=8, types=[None],
               idx_bounds=[7, 8, 9, 15, 16, 17, 31, 32, 33], ext=True, users=True, big=200),
  'fat': dict(labels=['img:5.25in-ibm-ssdd8', 'img:5.25in-ibm-ssdd9', 'img:5.25in-ibm-dsdd8', 'img:5.25in-ibm-dsdd9', 'img:5.25in-ibm-dshd', 'img:3.5in-ibm-720',
-                     'img:3.5in-ibm-1440', 'imd:5.25in-ibm-dsdd9', 'td0:5.25in-ibm-dsdd9', 'imd:3.5in-ibm-720', 'td0:3.5in-ibm-1440', 'img:5.25in-ibm-dsqd', 'img:5.25in-ibm-ssqd'],
+                     'img:3.5in-ibm-1440', 'imd:5.25in-ibm-dsdd9', 'td0:5.25in-ibm-dsdd9', 'imd:3.5in-ibm-720', 'td0:3.5in-ibm-1440', 'img:5.25in-ibm-dsqd'],
              holes=False, dirs=True, maxname=8, types=[None], idx_bounds=[1, 2, 3], ext=True, big=800),
 }
 SMALL_LABELS = {  # quick tier: small volumes, one of each container family
